@@ -62,3 +62,9 @@ Proof. vm_compute. split; reflexivity. Qed.
 Example C18_hyp_sat :
   snd (load (tree_of [(0, (0, [1; 2])); (1, (1, [3])); (2, (2, [3])); (3, (3, []))]) 0) = None.
 Proof. vm_compute. reflexivity. Qed.
+
+(* the constants of the model (varint byte budgets, magic bytes, format version, nesting limit, default
+   buffer size >= 10) are those of the current sources (Gen/Tables.v is regenerated from /repo on every run) *)
+From YV Require Import Proofs.GenTie.
+Theorem C18_constants_are_the_sources : constants_statement.
+Proof. exact constants_agree. Qed.
